@@ -379,7 +379,8 @@ def run(tape, ctx, item=None):
     sel = {"all": None, "none": {57}, "first": {0}, "odd": {1, 3}}[selkind]
     if selkind != "all":
         ctx.probe("page selection: " + selkind)
-    if t.coin(10, 100, "doomed"):
+    doomed = t.coin(10, 100, "doomed")
+    if doomed:
         # an earlier job in this process that ends with an exception in the middle of a form XObject (strict mode, unknown
         # operator): whatever it leaves behind belongs to its own converter, not to the ones created afterwards
         ctx.probe("earlier job aborted inside a form")
@@ -398,6 +399,11 @@ def run(tape, ctx, item=None):
     try:
         pages = list(HL.extract_pages(io.BytesIO(data), laparams=la(), page_numbers=sel))
     except Exception as e:
+        if doomed:
+            # the generated document is well-formed (it extracts in every run without the earlier job)
+            dv = Dev("C11:after-aborted-job:raise:%s@%s" % (type(e).__name__, where(e)), "a well-formed document fails after an earlier job of this process ended with an exception inside a form: %r" % (e,))
+            tape.note("after-aborted-job")
+            return Outcome([dv], scen=repr(data), nontrivial=True, sample={"pages": 0, "laparams": lakey, "text": "", "sinks": []})
         raise core.HarnessError("generated document does not extract: %r" % (e,))
     if any(isinstance(x, L.LTTextBoxVertical) for p in pages for x in p):
         ctx.probe("vertical text box")
